@@ -239,6 +239,69 @@ def _call(job):
     return f(a)
 
 
+# ------------------------------------------------------------------ answers the running node builds itself (every rejection path)
+NODE_PATHS = ("realm-not-served", "application-unsupported", "missing-avp", "duplicate", "handler-raises", "delivered")
+
+
+def work_node_paths(args):
+    """A started node, one ready connection; requests with / without Session-Id and 0..2 Proxy-Info x flag octets that make the
+    node answer by itself: 3003, 3007, 5005, 5012 (T-flagged duplicate), 5012 (handler raises), and an application answer."""
+    from .. import env, scenario
+    path, = args
+    out = []
+    n = 0
+    cfg = {"node": {"ips": ["10.0.0.1"], "tcp_port": 3868, "idle_timeout": 600, "wakeup": 5},
+           "peers": [{"name": "peer1.example.org"}],
+           "apps": [{"id": env.APP_ACCT, "acct": True, "peers": [0], "behaviour": "raise" if path == "handler-raises" else "answer"}]}
+    pis = [rc.grouped(284, [rc.octets(280, f"proxy{i}.example.org".encode()), rc.octets(33, b"state%d" % i)]) for i in range(2)]
+    for fl in (R | P, R, R | P | T, R | 0x0f):
+        for npi in (0, 1, 2):
+            sc = scenario.Scenario(cfg, max_socks=1)
+            try:
+                nw = sc.start()
+                sc.apply(("accept",))
+                sc.apply(("m", 0, "cer_p0"))
+                s = sc.socks[0]
+                kw = dict(host="peer1.example.org", hbh=0x4242, e2e=0x4343, flags=fl, session="sess;node", extra=pis[:npi])
+                if path == "realm-not-served":
+                    req = env.acr(dest_realm="nowhere.example", **kw)
+                elif path == "application-unsupported":
+                    req = env.acr(app=9, **kw)
+                elif path == "missing-avp":
+                    req = env.acr(missing=(485,), **kw)
+                elif path == "duplicate":
+                    first = env.acr(**dict(kw, flags=R | P, extra=[]))
+                    nw.deliver(s.fs, first)
+                    sc.sync()
+                    req = env.acr(**dict(kw, flags=fl | T, hbh=0x4243))
+                else:
+                    req = env.acr(**kw)
+                before = len(s.out)
+                nw.deliver(s.fs, req)
+                sc.sync()
+                f = rc.Frame(req)
+                n += 1
+                case = {"node_path": path, "flags": fl, "proxy_infos": npi}
+                answers = [a for a in s.out[before:] if not a.h.is_request and a.h.code == 271 and a.h.hbh == f.h.hbh]
+                if len(answers) != 1:
+                    out.append(Violation(f"node-answer[{path}]:not-exactly-one-answer", f"{case}: {answers}", case))
+                    continue
+                a = answers[0]
+                if (a.h.version, a.h.code, a.h.app, a.h.hbh, a.h.e2e) != (f.h.version, f.h.code, f.h.app, f.h.hbh, f.h.e2e):
+                    out.append(Violation(f"node-answer[{path}]:header-not-mirrored", f"{case}: {a!r}", case))
+                if a.h.flags & 0xb0 or bool(a.h.flags & P) != bool(fl & P):
+                    out.append(Violation(f"node-answer[{path}]:flags", f"{case}: flags {a.h.flags:#x} for request flags {fl:#x}", case))
+                if a.get(264) != b"node.example.org" or a.get(296) != b"example.org":
+                    out.append(Violation(f"node-answer[{path}]:origin-not-local", f"{case}: {a.get(264)} {a.get(296)}", case))
+                if a.get(263) != b"sess;node":
+                    out.append(Violation(f"node-answer[{path}]:session-id-not-copied", f"{case}: {a.get(263)}", case))
+                if a.getall(284) != f.getall(284):
+                    out.append(Violation(f"node-answer[{path}]:proxy-info-not-copied", f"{case}: answer has {len(a.getall(284))} of {npi}", case))
+            finally:
+                sc.close()
+    return n, out
+
+
 def run(tier):
     rep = Report("C20", tier, "exploration")
     common.pool()
@@ -250,6 +313,7 @@ def run(tier):
             rep.add(Violation("registry:request-class-without-answer-class", f"{label}", {"class": label}))
     jobs = [(work, (lo, lo + 8)) for lo in range(0, len(reg), 8)]
     jobs += [(work_helpers, (lo, lo + 12)) for lo in range(0, len(reg), 12)]
+    jobs += [(work_node_paths, (p,)) for p in NODE_PATHS]
     total = 0
     for n, vs in common.pmap(_call, jobs, chunksize=1):
         total += n
@@ -266,6 +330,8 @@ def run(tier):
 
 
 def replay(case):
+    if "node_path" in case:
+        return work_node_paths((case["node_path"],))[1]
     # re-run the whole class (cheap) and return what concerns it
     reg = registry()
     idx = [i for i, r in enumerate(reg) if r[0] == case.get("class")]
